@@ -35,7 +35,7 @@ confirmed = (res.get('apply_rc') == 0 and res.get('pytest_rc') == 0 and res.get(
              and res.get('demo_patched_rc') not in (0, None))
 meta = {
     'property': pid, 'variant': (('r' + round_) if round_ else '') + var, 'origin': ('independent sub-agent given the property text, a scratch worktree and - adversarial round - a description '
-               'of what the check suite already generates, asked for a change that slips past it') if round_ in ('4', '5', '8') else ('independent sub-agent given the full property record (statement, quantifier, anchors) and a scratch worktree, asked for three realistic changes at different anchored mechanisms' if round_ in ('6', '7', '9', '10') else
+               'of what the check suite already generates, asked for a change that slips past it') if round_ in ('4', '5', '8') else ('independent sub-agent given the full property record (statement, quantifier, anchors) and a scratch worktree, asked for three realistic changes at different anchored mechanisms' if round_ in ('6', '7', '9', '10', '11') else
               'independent sub-agent given only the property text and a scratch worktree'),
     'what_it_needs_to_manifest': notes.strip(),
     'confirmed': confirmed,
